@@ -109,7 +109,7 @@ WITNESSES += [
          new="        args = tuple(sorted((p, q), key=sort_idx_canonical))\n"),
     # reversed difference (x - y = 0 <=> y - x = 0)
     dict(id="c10-ok-reversed-difference", prop="C10", file=I, expect=None,
-         old="    difference = remainder - ref_remainder\n", new="    difference = ref_remainder - remainder\n"),
+         old="    if vanishes(remainder - ref_remainder):\n", new="    if vanishes(ref_remainder - remainder):\n"),
     # in-place update of the assumptions -> merged dict display
     dict(id="c10-ok-dict-merge", prop="C10", file=E, expect=None,
          old="        assumptions = self.assumptions\n        assumptions['target_idx'] = indices\n"
@@ -193,10 +193,57 @@ WITNESSES += [
          old="            else:  # permutation changes the denominator\n                ret[perms] = None\n",
          new="            else:  # permutation changes the denominator\n                ret[perms] = factor\n"),
     dict(id="c10-remainder-sum", prop="C10", file=I, expect="R10a",
-         old="    difference = remainder - ref_remainder\n", new="    difference = remainder + ref_remainder\n"),
+         old="    if vanishes(remainder - ref_remainder):\n        return 1\n    elif vanishes(remainder + ref_remainder):\n        return -1\n",
+         new="    if vanishes(remainder + ref_remainder):\n        return 1\n    elif vanishes(remainder - ref_remainder):\n        return -1\n"),
     dict(id="c10-remainder-sign-swapped", prop="C10", file=I, expect="R10a",
-         old="    return 1 if factored[0].sympy is S.Zero else -1\n", new="    return -1 if factored[0].sympy is S.Zero else 1\n"),
+         old="    elif vanishes(remainder + ref_remainder):\n        return -1\n    return None\n",
+         new="    elif vanishes(remainder + ref_remainder):\n        return 1\n    return None\n"),
     dict(id="c10-term-sym-relevance", prop="C10", file=Y, expect="R10a",
          old="                else:  # looking for sym: P_pq X != X\n                    if perm_term.sympy - term.sympy is not S.Zero:\n",
          new="                else:  # looking for sym: P_pq X != X\n                    if perm_term.sympy + term.sympy is not S.Zero:\n"),
+]
+
+# ---------------------------------------------------------------------------- round 4: factor of product permutations
+_GP_OLD = ("            for perms in chain.from_iterable(space_perms):\n                yield perms\n"
+           "            if len(space_perms) > 1:  # form the product\n                for perm_tpl in product(*space_perms):\n"
+           "                    yield PermutationProduct(chain.from_iterable(perm_tpl))\n")
+_GP_NEW = ("            for perms in chain.from_iterable(space_perms):\n                yield perms, None\n"
+           "            if len(space_perms) > 1:  # form the product\n                for perm_tpl in product(*space_perms):\n"
+           "                    yield (PermutationProduct(chain.from_iterable(perm_tpl)),\n                           perm_tpl)\n")
+_LOOP_OLD = "        for perms in get_perms(*space_perms):\n            permuted = self.permute(*perms).sympy\n"
+WITNESSES += [
+    # the factor of a product is taken from the first two single-class parts only (seed C10-8)
+    dict(id="c10-product-factor-two-parts", prop="C10", file=E, expect="R10a", edits=[
+        (_GP_OLD, _GP_NEW),
+        (_LOOP_OLD,
+         "        for perms, parts in get_perms(*space_perms):\n"
+         "            if parts is not None and all(p in symmetry for p in parts):\n"
+         "                occ_perms, virt_perms = parts[:2]\n"
+         "                symmetry[perms] = symmetry[occ_perms] * symmetry[virt_perms]\n"
+         "                continue\n"
+         "            permuted = self.permute(*perms).sympy\n")]),
+    # the same shortcut with the factors of all parts: behaviour preserving
+    dict(id="c10-ok-product-factor-all-parts", prop="C10", file=E, expect=None, edits=[
+        (_GP_OLD, _GP_NEW),
+        (_LOOP_OLD,
+         "        for perms, parts in get_perms(*space_perms):\n"
+         "            if parts is not None and all(p in symmetry for p in parts):\n"
+         "                known_factor = 1\n"
+         "                for part in parts:\n"
+         "                    known_factor *= symmetry[part]\n"
+         "                symmetry[perms] = known_factor\n"
+         "                continue\n"
+         "            permuted = self.permute(*perms).sympy\n")]),
+    # a product whose factor ignores a symmetric part would still be right; dropping the last part is not
+    dict(id="c10-product-factor-last-dropped", prop="C10", file=E, expect="R10a", edits=[
+        (_GP_OLD, _GP_NEW),
+        (_LOOP_OLD,
+         "        for perms, parts in get_perms(*space_perms):\n"
+         "            if parts is not None and all(p in symmetry for p in parts):\n"
+         "                known_factor = 1\n"
+         "                for part in parts[:-1]:\n"
+         "                    known_factor *= symmetry[part]\n"
+         "                symmetry[perms] = known_factor\n"
+         "                continue\n"
+         "            permuted = self.permute(*perms).sympy\n")]),
 ]
